@@ -113,6 +113,9 @@ class Spec:
     def line(self, i, ln, out):
         w = ln.split()
         out, _, at_end = out.rpartition(' @')
+        if 'SPIN' in out:
+            return self.bad(i, 'a clock thread busy-loops: it keeps returning from wait without awakening the '
+                               'task that is due', 'c08:spin')
         if out.startswith('HARNESS-EXC') or out in ('bad-line',):
             return self.bad(i, f'harness failure {out}', 'c08:harness')
         evs = [] if out in ('-', 'noop') or w[0] == 'dump' else out.split(';')
@@ -241,6 +244,8 @@ class Spec:
                     break
             if raised or res == 'x':
                 self.expect_err = (k, task)
+            elif res == 'r:inf':
+                pass                      # an infinite delta means "never", as in sched()
             elif res[0] == 'r':
                 d = F(res[2:])
                 if not c['stopped']:
@@ -333,7 +338,9 @@ class Check(common.Check):
                     else:
                         atoms.append(f'+:{fr(G.choice([Fr(1,1024), Fr(1,8), Fr(1,2)]))}')
                 r = G.random()
-                if r < 0.55:
+                if r < 0.03:
+                    res = 'r:inf'
+                elif r < 0.55:
                     res = 'r:' + fr(G.choice([Fr(0), Fr(1, 8), Fr(1, 8), Fr(1, 4), Fr(1, 2), Fr(1), Fr(3, 8)]))
                 elif r < 0.78:
                     res = 'd'
